@@ -19,3 +19,4 @@ def run(col, configs, tier):
         guarded(col, X.rule_suffix_needs_digit, facts)
         guarded(col, X.rule_grammar_guards, facts)
         guarded(col, X.rule_pattern_before_input, facts)
+        guarded(col, X.rule_empty_number_exit, facts)
